@@ -11,7 +11,7 @@ import ast
 
 from ..astutil import (bind_args, body_nodes, call_name, call_receiver, call_tail, calls_in, dotted, src, walk_shallow,
                        Facts, fact_atoms)
-from ..interp import Raised, Uninterpretable, comparison_only, ClassTok, Obj
+from ..interp import Raised, Uninterpretable, comparison_only, ClassTok, Obj, with_cgranges
 from ..par import pmap
 from ..lockernel import (blocks_of, is_empty_obj, loc_interp, mk_compound, mk_single, multiset, orderings, positions,
                          run, strand_of, strands, well_formed)
@@ -185,16 +185,21 @@ def _ops_on_case(repo, it, S, acls, spec):
 _W = {}
 
 
-def _check_ops(ctx, rule, specs, acls, quals):
-    """specs: list of (kind, env, strand-a name, strand-b name).  Every public op x every flag combination."""
+def _check_ops(ctx, rule, specs, acls, quals, cg=False):
+    """specs: list of (kind, env, strand-a name, strand-b name).  Every public op x every flag combination.
+    cg=True: the library's optional cgranges branches are followed through the analyser's native interval-index model."""
     r = ctx.r
     repo = ctx.repo
+    slot = "it_cg" if cg else "it"
 
     def work(spec):
-        if "it" not in _W or _W.get("repo") is not repo:
-            _W["it"] = loc_interp(repo, max_steps=10 ** 12)
+        if slot not in _W or _W.get("repo") is not repo:
+            _W.pop("it", None)
+            _W.pop("it_cg", None)
             _W["repo"] = repo
-        it = _W["it"]
+        if slot not in _W:
+            _W[slot] = with_cgranges(loc_interp(repo, max_steps=10 ** 12)) if cg else loc_interp(repo, max_steps=10 ** 12)
+        it = _W[slot]
         try:
             return _ops_on_case(repo, it, strands(it), acls, spec)
         except Uninterpretable as ex:
@@ -475,6 +480,20 @@ def r6_multi_block(ctx):
         ctx.r.ok("C02.R6", fn.qual, "closest-block distance, both receiver orders", fn)
 
 
+def r7_cgranges_path(ctx):
+    """the optional interval-index branch of the compound x compound intersection (taken only when the cgranges package is
+    installed - it is not in this environment, so no test runs it) gives position-set answers as well: the same operand
+    pairs as R6 / R1d, evaluated with HAS_CGRANGES = True through a native model of the index"""
+    U = 8 if ctx.thorough else 7
+    three, two, one = _run_layouts(U, 3), _run_layouts(U, 2), _run_layouts(U, 1)
+    args = (two + three + one) if ctx.thorough else (two[::2] + three[::4] + one[::4])
+    cases = [("lay", (a, b), sa, sb) for a in (three if ctx.thorough else three[::2]) for b in args
+             for sa, sb in ([("PLUS", "PLUS"), ("MINUS", "PLUS")] if ctx.thorough else [("PLUS", "PLUS")])]
+    cases += [("lay", (a, b), "PLUS", "PLUS") for a in two[::3] for b in two[1::3]]
+    ctx.r.floor("C02.R7", "pairs of position sets (interval-index branch)", len(cases), 500)
+    _check_ops(ctx, "C02.R7", cases, "CompoundInterval", "compound x compound through the cgranges branch", cg=True)
+
+
 RULES = [
     ("C02.R1", r1_single_single),
     ("C02.R1cmp", r1_compare),
@@ -482,6 +501,7 @@ RULES = [
     ("C02.R1b", r1b_compound_single),
     ("C02.R1d", r1d_compound_compound),
     ("C02.R6", r6_multi_block),
+    ("C02.R7", r7_cgranges_path),
 ]
 
 
